@@ -34,6 +34,9 @@ func rigGoodValue(r *rng.R, ty string) string {
 		return rng.Pick(r, []string{"true", "false", "1", "T"})
 	case "Color":
 		return rng.Pick(r, []string{"red", "green"})
+	case "float64", "float32":
+		// exactly representable, printed by %v as written
+		return rng.Pick(r, []string{"0", "7", "-3", "2.5", "0.25", "-12.75"})
 	}
 	if strings.HasPrefix(ty, "uint") {
 		return rng.Pick(r, []string{"0", "7", "42"})
@@ -74,7 +77,7 @@ func genRigCase(r *rng.R) rigIn {
 		rid++
 		reqs = append(reqs, q)
 	}
-	scalarTypes := []string{"string", "int", "int8", "int16", "int32", "int64", "uint", "uint8", "uint16", "uint32", "uint64", "bool", "Color"}
+	scalarTypes := []string{"string", "int", "int8", "int16", "int32", "int64", "uint", "uint8", "uint16", "uint32", "uint64", "bool", "Color", "float64", "float32"}
 	unformattable := r.Chance(1, 12)
 	nc := 1 + r.Intn(2)
 	for ci := 0; ci < nc; ci++ {
@@ -141,7 +144,8 @@ func genRigCase(r *rng.R) rigIn {
 				if firstBody && ty == "Color" {
 					ty = "string"
 				}
-				q := rigParam{name: fmt.Sprintf("v%d", len(params)), ty: ty, loc: loc, ptr: r.Chance(1, 3)}
+				// Go names the templates' ToLowerCamel rewrites (initialisms, snake_case, leading capitals) among plain ones
+				q := rigParam{name: fmt.Sprintf("%s%d", rng.Pick(r, []string{"v", "v", "v", "userID", "base_url", "ID", "APIKey"}), len(params)), ty: ty, loc: loc, ptr: r.Chance(1, 3)}
 				q.wire = q.name
 				if r.Chance(1, 2) {
 					q.wire = rng.Pick(r, []string{"w-", "x_", "Alias"}) + q.name
@@ -149,7 +153,7 @@ func genRigCase(r *rng.R) rigIn {
 				if loc == "Header" {
 					q.wire = "X-" + q.wire
 				}
-				if loc == "Query" && !q.ptr && (ty == "string" || ty == "int") && r.Chance(1, 5) {
+				if loc == "Query" && !q.ptr && (ty == "string" || ty == "int" || ty == "int64" || ty == "uint8" || ty == "float64" || ty == "float32" || ty == "bool") && r.Chance(1, 4) {
 					q.ty = "[]" + ty
 				}
 				params = append(params, q)
@@ -228,6 +232,10 @@ func genRigCase(r *rng.R) rigIn {
 			if r.Chance(1, 5) {
 				m.Annots = append(m.Annots, pAnnot{Name: "Response", Value: rng.Pick(r, []string{"201", "202"})})
 			}
+			if r.Chance(1, 3) {
+				// documentation only; the spec generator (which the command runs BEFORE the routes generator) reads it
+				m.Annots = append(m.Annots, pAnnot{Name: "ErrorResponse", Value: rng.Pick(r, []string{"400", "404", "500"}), Desc: "failure"})
+			}
 			if expectRefused && ci == 0 && mi == 0 {
 				// the last result only HAS an error field: the project must be refused, nothing generated
 				m.Results = []string{"string", "Failure"}
@@ -304,6 +312,12 @@ func genRigCase(r *rng.R) rigIn {
 				dn := build("deny-all-nil-context", nil, "", all)
 				dn.NilCtx = true
 				add(dn)
+				if r.Chance(1, 2) {
+					// the refusal carries its own status: the response must show that one, registered reason phrase or not
+					ds := build("deny-all-own-status", nil, "", all)
+					ds.DenyStatus = rng.Pick(r, []int{401, 418, 429, 498, 499, 520, 599})
+					add(ds)
+				}
 				if len(routeSec) > 1 {
 					add(build("deny-first", nil, "", []string{routeSec[0][0].Name}))
 				}
@@ -343,6 +357,13 @@ func genRigCase(r *rng.R) rigIn {
 				}
 				if strings.HasPrefix(prm.ty, "[]") && base == "string" {
 					add(build("empty-first-of-slice:"+prm.name, vals{prm.name: ""}, "", nil))
+				}
+				if (base == "float64" || base == "float32") && prm.loc != "Body" && r.Chance(1, 2) {
+					bad := rng.Pick(r, []string{"abc", "1.2.3", "", "1,5"})
+					if bad == "" && prm.loc == "Path" {
+						bad = "abc"
+					}
+					add(build("float-bad:"+prm.name, vals{prm.name: bad}, "", nil))
 				}
 				if base == "bool" && r.Chance(1, 2) {
 					add(build("bool-bad:"+prm.name, vals{prm.name: rng.Pick(r, []string{"yes", "2", "tRuE"})}, "", nil))
